@@ -7,6 +7,7 @@ import (
 	"context"
 	"errors"
 	"fmt"
+	"runtime"
 	"sync"
 	"sync/atomic"
 	"testing"
@@ -387,4 +388,41 @@ func TestWitnessSubscription(t *testing.T) {
 		t.Fatalf("%d witness failures", fails)
 	}
 	fmt.Println("REPLAY-OK subscription")
+}
+
+// TestWitnessSubscriptionLive: Add racing with Unsubscribe on two goroutines - the finalizer runs exactly once, whichever
+// comes first (registered before the unsubscription: run by it; after: run at once). Bounded (rounds, timing); it only
+// backs UNDECIDED units.
+func TestWitnessSubscriptionLive(t *testing.T) {
+	const rounds = 20000
+	for round := 0; round < rounds; round++ {
+		sub := NewSubscription(nil)
+		var ran, ready, goFlag int32
+		var wg sync.WaitGroup
+		wg.Add(2)
+		go func() {
+			defer wg.Done()
+			atomic.AddInt32(&ready, 1)
+			for atomic.LoadInt32(&goFlag) == 0 {
+			}
+			sub.Add(func() { atomic.AddInt32(&ran, 1) })
+		}()
+		go func() {
+			defer wg.Done()
+			atomic.AddInt32(&ready, 1)
+			for atomic.LoadInt32(&goFlag) == 0 {
+			}
+			sub.Unsubscribe()
+		}()
+		for atomic.LoadInt32(&ready) < 2 {
+			runtime.Gosched()
+		}
+		atomic.StoreInt32(&goFlag, 1)
+		wg.Wait()
+		if n := atomic.LoadInt32(&ran); n != 1 || !sub.IsClosed() {
+			fmt.Printf("REPLAY-FAIL subscription: Add(f) on one goroutine racing with Unsubscribe() on another (round %d): f ran %d time(s), closed=%v\n", round, n, sub.IsClosed())
+			t.Errorf("WITNESS subscription Add || Unsubscribe: f ran %d time(s)", n)
+			return
+		}
+	}
 }
